@@ -219,6 +219,9 @@ pub enum StrEdit {
     Append(String),
     Prepend(String),
     DropLast,
+    /// change the letter case of the `n`-th ASCII letter (scaled into the string): a value that differs from the
+    /// original only by case is still another value
+    FlipCase(u16),
 }
 
 #[derive(Clone, Debug, Serialize, Deserialize)]
@@ -287,6 +290,7 @@ fn str_edit() -> impl Strategy<Value = StrEdit> {
         2 => "[ -~]{1,3}".prop_map(StrEdit::Append),
         1 => "[ -~]{1,3}".prop_map(StrEdit::Prepend),
         1 => Just(StrEdit::DropLast),
+        1 => any::<u16>().prop_map(StrEdit::FlipCase),
     ]
 }
 
@@ -363,6 +367,16 @@ fn edit_str(s: &str, e: &StrEdit) -> String {
                 t.push('x');
             }
             t
+        }
+        StrEdit::FlipCase(n) => {
+            let letters: Vec<usize> = s.char_indices().filter(|(_, c)| c.is_ascii_alphabetic()).map(|(i, _)| i).collect();
+            if letters.is_empty() {
+                return s.to_string();
+            }
+            let at = letters[pick_index(*n, letters.len())];
+            let mut b = s.as_bytes().to_vec();
+            b[at] ^= 0x20;
+            String::from_utf8(b).expect("ASCII letter flipped in place")
         }
     }
 }
@@ -620,6 +634,8 @@ fn field_case(c: &FieldCase, known_open: &[bool; 2]) -> Report {
         "empty"
     } else if f0[field].starts_with(f1[field].as_str()) || f1[field].starts_with(f0[field].as_str()) {
         "prefix"
+    } else if f0[field].eq_ignore_ascii_case(f1[field].as_str()) {
+        "letter-case-only"
     } else if f0[field].len() == f1[field].len() {
         "same-len"
     } else {
